@@ -206,7 +206,7 @@ partial def pCostCurve : Parser (Option (List Nat))
   | "cc_ext" :: ts => do
     let (n, ts) ← pNat ts
     let (c, ts) ← pCostCurve ts
-    pure (c.bind fun w => if w.length ≥ 3 ∧ n = 0 then none else some (costExtrapolate w n n), ts)
+    pure (c.bind fun w => some (costExtrapolate w n n), ts)
   | _ => none
 
 partial def pCost : Parser (Option Cost)
